@@ -93,25 +93,45 @@ def run(R):
         hs = [h for h in iter_nodes(cp.node) if isinstance(h, ast.ExceptHandler)]
         c.need(len(hs) == 1, 'expected one handler')
         h = hs[0]
-        eio = [n for n in ast.walk(h) if isinstance(n, ast.If) and 'errno.EIO' in norm(n.test)]
         hn = h.name or 'err'
-        ok = len(eio) == 1 and any(isinstance(s, ast.Break) for s in eio[0].body) and norm(eio[0].test) in ('%s.args[0] == errno.EIO' % hn, '%s.errno == errno.EIO' % hn)
-        c.check(ok, cp, h, 'EIO from the child side ends interact (child closed the pty)', kind='ast', tag='eio-break')
-        last = h.body[-1]
-        c.check(isinstance(last, ast.Raise) and last.exc is None, cp, h, 'other OSErrors propagate', kind='ast', tag='other-raise')
         crd = [n for n, k in cfg_nodes_with_call(cp, lambda k: callee_last(k).endswith('__interact_read') and norm(k.args[0]) == 'self.child_fd')]
-        cv = crd[0].ast.targets[0].id if crd and isinstance(crd[0].ast, ast.Assign) else 'data'
-        emp = [t for t in g.nodes if t.kind == 'test' and norm(t.ast) in ("%s == b''" % cv, 'not %s' % cv)]
-        brk = [n for t in emp for n in guard_region(g, t, 'true') if n.kind == 'stmt' and isinstance(n.ast, ast.Break)]
-        c.check(bool(brk), cp, emp[0].ast if emp else None, 'an empty read from the child ends interact', kind='path', tag='empty-break')
-        # the end-of-stream test looks at what was READ, not at what a filter made of it
-        for t in emp:
-            mods = [m for m in g.nodes if m.kind == 'stmt' and cv in assigned_names(m.ast) and m not in crd
-                    and crd and g.path(crd[0], m, skip_labels=('exc',), include_start=False) is not None
-                    and g.path(m, t, avoid=set(crd), skip_labels=('exc',)) is not None]
-            c.check(not mods, cp, t.ast, 'the empty-read (end of stream) test is applied to the raw read, before any filter: a filter that returns b"" '
-                    '(e.g. one hiding a password) must not end interact()', witness='%s is reassigned at L%d before the test' % (cv, mods[0].lineno) if mods else None,
-                    tag='eof-on-raw-read')
+        c.need(len(crd) == 1 and isinstance(crd[0].ast, ast.Assign) and isinstance(crd[0].ast.targets[0], ast.Name), 'child read not found')
+        cv = crd[0].ast.targets[0].id
+        io_ = set(firsts) | set(n for n, k in cfg_nodes_with_call(cp, lambda k: dotted(k.func) == 'os.write' or callee_last(k) in ('_log', '_log_control') or
+                                                                   callee_last(k).endswith('__interact_writen') or callee_last(k).endswith('__interact_read')))
+        # the errno test of the handler, whichever way round it is written
+        eio = []
+        for t in g.nodes:
+            if t.kind == 'test' and t.ast is not None and any(t.ast is d or any(t.ast is y for y in ast.walk(d)) for d in ast.walk(h)):
+                rel = relation(t.ast)
+                if rel and rel[0] == 'eq' and 'errno.EIO' in (norm(rel[1]), norm(rel[2])) and \
+                        {norm(rel[1]), norm(rel[2])} & {'%s.args[0]' % hn, '%s.errno' % hn}:
+                    eio.append((t, rel[3]))
+        ok = len(eio) == 1
+        p_ = None
+        if ok:
+            t, lab = eio[0]
+            # on the EIO outcome nothing more is read, written or waited for: the copy loop is left
+            p_ = g.path(t, io_, avoid_edges={(t, other(lab))}, skip_labels=('exc',), include_start=False, assume=[('__eio__', True, set())])
+            ok = p_ is None
+        c.check(ok, cp, h, 'EIO from the child side ends interact (child closed the pty)', witness=('goes on: ' + g.describe_path(p_)) if p_ else None, kind='path', tag='eio-break')
+        okr = False
+        if len(eio) == 1:
+            t, lab = eio[0]
+            nxt = [s_ for s_, l_ in t.succ if l_ == other(lab)]
+            okr = len(nxt) == 1 and nxt[0].kind == 'stmt' and isinstance(nxt[0].ast, ast.Raise) and nxt[0].ast.exc is None
+        c.check(okr, cp, h, 'other OSErrors propagate', kind='ast', tag='other-raise')
+        # an empty read: nothing more is read / written / waited for
+        p_ = g.path(crd[0], io_, avoid={crd[0]}, skip_labels=('exc',), include_start=False, assume=emptiness_facts(cv, True))
+        c.check(p_ is None, cp, crd[0].ast, 'an empty read from the child ends interact', witness=('goes on: ' + g.describe_path(p_)) if p_ else None, kind='path', tag='empty-break')
+        # a non-empty read never ends it, whatever a filter makes of the data afterwards
+        hdr_ = g.node_of_stmt(loops[0])
+        kbd = set(n for n, k in cfg_nodes_with_call(cp, lambda k: callee_last(k).endswith('__interact_read') and norm(k.args[0]) != 'self.child_fd'))
+        p_ = g.path(crd[0], {g.exit}, avoid=set(firsts) | kbd | {crd[0], hdr_}, skip_labels=('exc',), include_start=False, assume=emptiness_facts(cv, False))
+        c.check(p_ is None, cp, crd[0].ast, 'the empty-read (end of stream) test is applied to the raw read, before any filter: a filter that returns b"" '
+                '(e.g. one hiding a password) must not end interact()', witness=('leaves the loop: ' + g.describe_path(p_)) if p_ else None, kind='path',
+                tag='eof-on-raw-read')
+
 
 
 def check_copy(c, cp, wr):
@@ -131,11 +151,11 @@ def check_copy(c, cp, wr):
             c.check(norm(ok_.args[0]) == 'self.STDOUT_FILENO' and is_name(ok_.args[1], v), cp, ok_,
                     'what was read from the child is what is written to the user\'s stdout', witness=norm(ok_), kind='flow', tag='child-to-stdout')
             check_only_filter(c, cp, g, n, on, v, 'output_filter', 'child-filter')
-            # every non-empty read reaches the write
-            emp = [t for t in g.nodes if t.kind == 'test' and norm(t.ast) in ("%s == b''" % v, 'not %s' % v) and g.path(n, t, skip_labels=('exc',))]
-            exits = set((t, 'true') for t in emp)
-            okp, p = g.must_pass(n, {nn for nn, _ in reads if nn is not n} | {g.exit}, {on}, skip_labels=('exc',), through_edges=exits)
-            c.check(okp, cp, ok_, 'every non-empty chunk from the child reaches stdout before the next read', witness=g.describe_path(p) if p else None, tag='child-delivered')
+            # every non-empty read reaches the write: no feasible way from the read, with a non-empty result, to the next read or out
+            # of the function that does not pass the write (flag variables and the shape of the tests do not matter)
+            p = g.path(n, {nn for nn, _ in reads if nn is not n} | {g.exit}, avoid={on, n}, skip_labels=('exc',), include_start=False,
+                       assume=emptiness_facts(v, False))
+            c.check(p is None, cp, ok_, 'every non-empty chunk from the child reaches stdout before the next read', witness=g.describe_path(p) if p else None, tag='child-delivered')
         elif 'STDIN' in srcfd:
             guard = [t for t in g.nodes if t.kind == 'test' and compare_parts(t.ast) and isinstance(compare_parts(t.ast)[1], ast.In)
                      and norm(compare_parts(t.ast)[0]) == 'self.STDIN_FILENO' and isinstance(compare_parts(t.ast)[2], ast.Name)]
